@@ -225,7 +225,7 @@ func (fr *Frame) callContract(bc *BoundContract, args []Val, p token.Pos) []Val 
 			if a.fn.fn != nil && bi < len(a.fn.fn.FreeVars) {
 				pt = a.fn.fn.FreeVars[bi].Type()
 			}
-			if p, ok := pt.(*types.Pointer); ok && locCtor(def(bv.t)) == "New" {
+			if p, ok := pt.(*types.Pointer); ok && locCtor(def(bv.t)) == "New" && closureMayWrite(a.fn.fn, bi) {
 				fr.cx.havocLoc(fr.st, ModLoc{loc: bv.t, typ: p.Elem(), text: "captured variable"})
 			}
 		}
@@ -262,6 +262,28 @@ func (fr *Frame) callContract(bc *BoundContract, args []Val, p token.Pos) []Val 
 		}
 	}
 	bc.bindResults(rvars, res)
+	if fr.lastRets == nil {
+		fr.lastRets = map[string][]Val{}
+		fr.lastRetNames = map[string]map[string]int{}
+	}
+	if bc.Fn != nil {
+		fr.lastRets[bc.Fn.Name()] = res
+		names := map[string]int{}
+		i := 0
+		if c.Sig.Type.Results != nil {
+			for _, f := range c.Sig.Type.Results.List {
+				if len(f.Names) == 0 {
+					i++
+					continue
+				}
+				for _, nm := range f.Names {
+					names[nm.Name] = i
+					i++
+				}
+			}
+		}
+		fr.lastRetNames[bc.Fn.Name()] = names
+	}
 	env2 := &SpecEnv{cx: fr.cx, pkg: pkg, vars: rvars, cur: fr.st, old: old}
 	for _, en := range c.Ensures {
 		if en.Assumed {
@@ -273,6 +295,73 @@ func (fr *Frame) callContract(bc *BoundContract, args []Val, p token.Pos) []Val 
 	}
 	_ = b
 	return res
+}
+
+// closureMayWrite: may the function literal write the variable it captures as
+// free variable idx (or let its address escape)?
+func closureMayWrite(fn *ssa.Function, idx int) bool {
+	if fn == nil || idx >= len(fn.FreeVars) || len(fn.Blocks) == 0 {
+		return true
+	}
+	fv := fn.FreeVars[idx]
+	derived := map[ssa.Value]bool{fv: true}
+	for pass := 0; pass < 3; pass++ {
+		for _, b := range fn.Blocks {
+			for _, ins := range b.Instrs {
+				switch x := ins.(type) {
+				case *ssa.FieldAddr:
+					if derived[x.X] {
+						derived[x] = true
+					}
+				case *ssa.IndexAddr:
+					if derived[x.X] {
+						derived[x] = true
+					}
+				case *ssa.ChangeType:
+					if derived[x.X] {
+						derived[x] = true
+					}
+				}
+			}
+		}
+	}
+	for _, b := range fn.Blocks {
+		for _, ins := range b.Instrs {
+			switch x := ins.(type) {
+			case *ssa.Store:
+				if derived[x.Addr] || derived[x.Val] {
+					return true
+				}
+			case ssa.CallInstruction:
+				for _, a := range x.Common().Args {
+					if derived[a] {
+						return true
+					}
+				}
+			case *ssa.MakeClosure:
+				for _, bv := range x.Bindings {
+					if derived[bv] {
+						return true
+					}
+				}
+			case *ssa.MapUpdate:
+				if derived[x.Value] {
+					return true
+				}
+			case *ssa.MakeInterface:
+				if derived[x.X] {
+					return true
+				}
+			case *ssa.Return:
+				for _, r := range x.Results {
+					if derived[r] {
+						return true
+					}
+				}
+			}
+		}
+	}
+	return false
 }
 
 // callFnParam: call of a function-typed parameter described by a fnparam spec.
